@@ -754,7 +754,7 @@ func (val Value) Modulo(other Value) Value {
 
 	// We cheat a bit here with infinities, just abusing the Multiply operation
 	// to get an infinite result of the correct sign.
-	if val == PositiveInfinity || val == NegativeInfinity || other == PositiveInfinity || other == NegativeInfinity {
+	if val.v.(*big.Float).IsInf() || other.v.(*big.Float).IsInf() {
 		return val.Multiply(other)
 	}
 
